@@ -198,3 +198,31 @@ pub fn leaf_invariant(p: &[u8; PAGE_SIZE], nmax: usize) -> u8 {
     }
     0
 }
+
+/// Writes an interior page: separators `seps[i]` (concrete lengths, symbolic or concrete bytes) with their left child
+/// pages, plus the right-most child. Layout per src/btree/interior.rs: 12-byte slots {prefix[4], child u32, offset u16,
+/// key_len u16} from byte 16, separator keys packed downwards from the end of the page, right child in the header.
+pub fn put_interior(p: &mut [u8; PAGE_SIZE], seps: &[Ent], children: &[u32], n: usize, right_child: u32) {
+    p[0] = T_INTERIOR;
+    p[1] = 0;
+    put16(p, 2, n as u16);
+    put16(p, 4, (16 + n * 12) as u16);
+    p[8] = 0;
+    put32(p, 12, right_child);
+    let mut off = PAGE_SIZE;
+    let mut i = 0;
+    while i < n {
+        let e = &seps[i];
+        off -= e.kl;
+        let mut j = 0;
+        while j < e.kl { p[off + j] = e.k[j]; j += 1; }
+        let so = 16 + i * 12;
+        let mut j = 0;
+        while j < 4 { p[so + j] = if j < e.kl { e.k[j] } else { 0 }; j += 1; }
+        put32(p, so + 4, children[i]);
+        put16(p, so + 8, off as u16);
+        put16(p, so + 10, e.kl as u16);
+        i += 1;
+    }
+    put16(p, 6, off as u16);
+}
